@@ -128,14 +128,15 @@ theorem runave_textbook (length : Nat) (hl : 2 ≤ length) (s : RunAve ℝ) (x :
     rw [foldl_add, one_lit]
     simp only [mean, w, List.sum_cons]
     ring
-  rw [runAveStep_started length none s x hs, if_pos hfull, hmean, prim_sqrt, hcast]
-  congr 3
-  rw [foldl_add_map (fun xi => dist2S none xi mean), zero_lit, one_lit]
-  simp only [w, List.map_cons, List.sum_cons, dist2S_none, zero_add]
-  have : (s.hist.map fun xi => (xi - mean) * (xi - mean)) = s.hist.map fun v => (v - mean) ^ 2 := by
+  have hsq : (s.hist.map fun xi => (xi - mean) * (xi - mean)) = s.hist.map fun v => (v - mean) ^ 2 := by
     apply List.map_congr_left; intro a _; ring
-  rw [this]
-  ring
+  have hvar : (s.hist.foldl (fun a xi => a + dist2S none xi mean) (0.0 + dist2S none x mean)) *
+      (1.0 / ((length : ℝ) - 1)) = (w.map fun v => (v - mean) ^ 2).sum / ((length : ℝ) - 1) := by
+    rw [foldl_add_map (fun xi => dist2S none xi mean), zero_lit, one_lit]
+    simp only [w, List.map_cons, List.sum_cons, dist2S_none, zero_add, hsq]
+    ring
+  rw [runAveStep_started length none s x hs, if_pos hfull]
+  simp only [hmean, prim_sqrt, hcast, hvar]
 
 /-- no line is written before the window is full -/
 theorem runave_silent_until_full (length : Nat) (s : RunAve ℝ) (x : ℝ) (hs : s.started = true)
